@@ -1,4 +1,5 @@
 import Sif.Proofs.C04
+import Sif.Proofs.C04Add
 import Sif.Spec.C04
 import Sif.Model.Clp.Units
 /-
@@ -39,6 +40,21 @@ def backing_add_Statement : Prop :=
     0 ≤ fS.i → fS.i ≤ Dec.P → 0 ≤ fB.i → fB.i ≤ Dec.P → R ≠ 0 → A ≠ 0 →
     calculatePoolUnits P R A n e fS fB ⟨0⟩ = .ok (some u) →
     backingOK R A P (R + n) (A + e) u.poolUnits = true
+
+/-- **Clause 4, liquidity additions without internal swap (partial: the two asymmetric branches,
+    which go through the square-root swap amount, are judged on the implementation only).**  For
+    every pool and every fee/ratio-shift setting, a symmetric addition (or an addition of nothing)
+    never lowers the backing per unit — exactly, with no dust. -/
+theorem backing_add_noswap_partial {P R A n e : Nat} {fS fB p : Dec} {u : UnitsRes}
+    (hR : R ≠ 0) (hA : A ≠ 0)
+    (hY : symmetryState A e R n ≠ .needMoreY) (hX : symmetryState A e R n ≠ .needMoreX)
+    (h : calculatePoolUnits P R A n e fS fB p = .ok (some u)) :
+    backingOK R A P (R + n) (A + e) u.poolUnits = true :=
+  Sif.Clp.backing_add_noswap hR hA hY hX h
+
+/- non-vacuity: a symmetric addition with a rounded-down unit quotient -/
+example : symmetryState 2000003 2000003 1000001 1000001 = .symmetric := by decide
+example : calculatePoolUnits 777 1000001 2000003 1000001 2000003 ⟨0⟩ ⟨0⟩ ⟨0⟩ = .ok (some ⟨1554, 777, .noSwap, 0⟩) := by decide +kernel
 
 /- non-vacuity of clause 1: a concrete there-and-back swap -/
 example : calcSwapResult false 1000000 1000 2000000 ⟨10^17⟩ ⟨3 * 10^15⟩ = .ok (2191, 6) := by decide +kernel
